@@ -195,7 +195,7 @@ CHECKS = {
             "per-node expression support INSIDE SQL-engine trees, back-tracking of "
             "joins with an explicit preferred engine other than the fixed relation's and trees processed through a SQL engine are validated by walking every tree the real library returns, not "
             "proved. " + CORR, "", "DESIGN.md 5/C14"),
-    "C15": (PR, "Lean 4 theorems: Transfer.simplify sound, iteration-engine transfers keep content, materialize of locked adds nothing, back-tracking stops at locked nodes, _finish_apply keeps locked nodes + regenerated is_locked table + correspondence",
+    "C15": (PR, "Lean 4 theorems: Transfer.simplify sound, iteration-engine transfers keep content, materialize of locked adds nothing, back-tracking stops at locked nodes and never happens inside a database (regenerated engine method-resolution table), _finish_apply keeps locked nodes + regenerated is_locked table + correspondence",
             "Machine-checked: whatever Transfer.simplify hands back has the original content, the requested engine and is "
             "reached through transfers/unlocked markers only; transfers between iteration engines (incl. there-and-back) "
             "keep content and land in the requested engine; a no-op transfer returns the relation itself; materializing a "
@@ -210,7 +210,7 @@ CHECKS = {
             "executor: unconditionally; with executor: for any executor that never under-counts... see Props/C16.lean), "
             "a doomed report always carries a message, and with a truthful executor the report is exact. " + CORR,
             "", "DESIGN.md 5/C16"),
-    "C17": (PR, "Lean 4 theorems by induction over the recursion budget of the SQL engine's mutual tree-building block (conform, append_unary, _append_unary_to_select incl. projection push-down into UNION branches, _append_binary_to_select for chain and join, apply) + correspondence (every conformed tree also runs on SQLite) + structural oracle on every Select",
+    "C17": (PR, "Lean 4 theorems by induction over the recursion budget of the SQL engine's mutual tree-building block (conform, append_unary, _append_unary_to_select incl. projection push-down into UNION branches, _append_binary_to_select for chain and join, apply) + correspondence (every conformed tree also runs on SQLite) + structural oracle on every Select; Select.apply_skip regenerated from source (bridge lemma)",
             "Machine-checked for every raw well-formed SQL tree (leaves, materializations, transfers, the seven unary "
             "operations with arbitrary parameters, chains, joins with any predicate over the operands' columns; any depth) "
             "over any truthful leaf contents and for every recursion budget: conform returns a coherent Select (flagged "
